@@ -24,6 +24,7 @@ Check @plain_payload.
 Check @struct_expansion_end_to_end.
 Check @declared_type_obeys_C01.
 Check @alias_names_injective.
+Check @shaped_declarations_expand.
 Print Assumptions parse_complete.
 Print Assumptions option_is_recognised.
 Print Assumptions print_parse_roundtrip.
@@ -46,3 +47,4 @@ Print Assumptions plain_payload.
 Print Assumptions struct_expansion_end_to_end.
 Print Assumptions declared_type_obeys_C01.
 Print Assumptions alias_names_injective.
+Print Assumptions shaped_declarations_expand.
